@@ -251,6 +251,8 @@ type world struct {
 	last *commitRec
 	// commit of the current round, not yet adopted as the head (op "advance")
 	pending *commitRec
+	// counted precommits of the earlier round indexes of the current round: index -> sender -> block
+	prevIdx map[uint32]map[int]common.Hash
 
 	// tally model for the current (round, index)
 	first  map[ucon.VoteType]map[int]common.Hash // sender -> block of its first counted vote
@@ -264,7 +266,10 @@ type commitRec struct {
 	index  uint32 // round index of the vote container
 	header *types.Header
 	voted  map[int]bool // senders whose precommit for it was counted
-	seen   int          // entries of chain.Updated already judged
+	// senders whose precommit for this block was counted in an EARLIER round index of its round
+	// (the block was locked there and committed later): index -> senders
+	earlier map[uint32]map[int]bool
+	seen    int // entries of chain.Updated already judged
 }
 
 func (w *world) resetTally() {
@@ -440,9 +445,9 @@ func crypto3(b byte) common.Hash {
 // sendLateVote delivers a precommit for the block committed in the previous round (w.last).
 // variant 0 honest, 3 inflated weight, 4 credential of another step, 11 signature over another block,
 // 12 zero-seat sender claiming one seat. It reports whether the vote is genuine.
-func (w *world) sendLateVote(sender int, variant int) bool {
+func (w *world) sendLateVote(sender int, variant int, ri uint32) bool {
 	sp := w.set.Specs[sender]
-	r, ri := w.last.round, w.last.index
+	r := w.last.round
 	hash := w.last.header.Hash()
 	step := uint32(ucon.Precommit)
 	credStep := step
@@ -748,7 +753,17 @@ func runCase(c Case) kit.Result {
 			}
 			w.labels["commit-verified"] = true
 			if w.pending == nil {
-				rec := &commitRec{round: w.round, index: ce.RoundIndex, header: blk.Header(), voted: map[int]bool{}}
+				rec := &commitRec{round: w.round, index: ce.RoundIndex, header: blk.Header(), voted: map[int]bool{}, earlier: map[uint32]map[int]bool{}}
+				for idx, m := range w.prevIdx {
+					for s, fh := range m {
+						if fh == h {
+							if rec.earlier[idx] == nil {
+								rec.earlier[idx] = map[int]bool{}
+							}
+							rec.earlier[idx][s] = true
+						}
+					}
+				}
 				for s, fh := range w.first[ucon.Precommit] {
 					if fh == h && !w.equiv[ucon.Precommit][s] {
 						rec.voted[s] = true
@@ -818,6 +833,15 @@ func runCase(c Case) kit.Result {
 			if w.pending != nil && w.pending.round == w.round {
 				continue // a node that has committed inserts the block and starts the next round: its round index never times out
 			}
+			if w.prevIdx == nil {
+				w.prevIdx = map[uint32]map[int]common.Hash{}
+			}
+			w.prevIdx[w.index] = map[int]common.Hash{}
+			for s, fh := range w.first[ucon.Precommit] {
+				if !w.equiv[ucon.Precommit][s] {
+					w.prevIdx[w.index][s] = fh
+				}
+			}
 			w.index++
 			w.step = 0
 			w.resetTally()
@@ -838,6 +862,7 @@ func runCase(c Case) kit.Result {
 			w.round++
 			w.index, w.step = 1, 0
 			w.blocks = map[string]*types.Block{}
+			w.prevIdx = nil
 			w.resetTally()
 			w.labels["advanced-to-next-round"] = true
 			w.logf("[%d] block %x becomes the head; new round: (%d,%d)", i, w.last.header.Hash().Bytes()[:4], w.round, w.index)
@@ -849,9 +874,23 @@ func runCase(c Case) kit.Result {
 			if w.last == nil || w.last.round+1 != w.round {
 				continue
 			}
+			// the vote is for the round index the block was committed in or - if the block had already
+			// collected precommits in an earlier index of that round (locked, committed later) - for that index
+			ri := w.last.index
+			votedThere := w.last.voted
+			if op.C%2 == 1 && len(w.last.earlier) > 0 {
+				var idxs []int
+				for idx := range w.last.earlier {
+					idxs = append(idxs, int(idx))
+				}
+				sort.Ints(idxs)
+				ri = uint32(idxs[(op.C/2)%len(idxs)])
+				votedThere = w.last.earlier[ri]
+				w.labels["late-precommit-for-earlier-index"] = true
+			}
 			var cands []int
 			for _, m := range w.members {
-				if m != 0 && !w.last.voted[m] {
+				if m != 0 && !votedThere[m] {
 					cands = append(cands, m)
 				}
 			}
@@ -864,8 +903,8 @@ func runCase(c Case) kit.Result {
 				adversarial++
 			}
 			w.logf("[%d] deliver (late, for the block committed in round %d):", i, w.last.round)
-			if w.sendLateVote(sender, variant) {
-				w.last.voted[sender] = true
+			if w.sendLateVote(sender, variant, ri) {
+				votedThere[sender] = true
 			}
 			if r := process(); r != nil {
 				return *r
